@@ -31,6 +31,15 @@ struct pol_u {
 	uintptr_t map(size_t length);
 	void unmap(uintptr_t base, size_t length);
 };
+// page size == superblock size (large user areas are then superblock-aligned: the frame lookup must round (p - 1), not p)
+struct pol_e {
+	static constexpr size_t pagesize = 0x400;
+	static constexpr size_t slabsize = 0x400;
+	static constexpr size_t sb_size = 0x400;
+	static constexpr int num_buckets = 6;
+	uintptr_t map(size_t length, size_t align);
+	void unmap(uintptr_t base, size_t length);
+};
 // default configuration (256 KiB slabs and superblocks, 4 KiB pages, 13 buckets), aligned map, no poisoning
 struct pol_d {
 	uintptr_t map(size_t length, size_t align);
@@ -39,15 +48,19 @@ struct pol_d {
 using A_pd = frg::slab_pool<pol_d, vmutex>;
 using A_pa = frg::slab_pool<pol_ap, vmutex>;
 using A_pu = frg::slab_pool<pol_u, vmutex>;
+using A_pe = frg::slab_pool<pol_e, vmutex>;
 using A_ulock = frg::unique_lock<vmutex>;
 // the per-bucket tree of partially used slabs (private typedefs: the TU is compiled with -fno-access-control)
 using A_pa_tree = A_pa::partial_tree_type;
 using A_pu_tree = A_pu::partial_tree_type;
+using A_pe_tree = A_pe::partial_tree_type;
 using A_pa_treeb = frg::_redblack::tree_crtp_struct<A_pa_tree, A_pa::slab_frame, &A_pa::slab_frame::partial_hook, frg::null_aggregator>;
 using A_pu_treeb = frg::_redblack::tree_crtp_struct<A_pu_tree, A_pu::slab_frame, &A_pu::slab_frame::partial_hook, frg::null_aggregator>;
+using A_pe_treeb = frg::_redblack::tree_crtp_struct<A_pe_tree, A_pe::slab_frame, &A_pe::slab_frame::partial_hook, frg::null_aggregator>;
 using A_aa = frg::slab_allocator<pol_ap, vmutex>;
 }
 template class frg::slab_pool<frgv::pol_ap, frgv::vmutex>;
 template class frg::slab_pool<frgv::pol_u, frgv::vmutex>;
 template class frg::slab_pool<frgv::pol_d, frgv::vmutex>;
+template class frg::slab_pool<frgv::pol_e, frgv::vmutex>;
 template class frg::slab_allocator<frgv::pol_ap, frgv::vmutex>;
